@@ -27,6 +27,12 @@ def run(pid, tier, seed, res, seeds_extra=None, only=None):
         dict(kind="exec", run_debug=True, target=[["tag", "t0"]], exclude=None, root=None, in_hypothesis=True),
         dict(kind="exec", run_debug=False, target=None, exclude=None, root=[["id", "n0"]], in_hypothesis=True),
         dict(kind="call", run_debug=False, target=None, exclude=None, root=None, in_hypothesis=True)]))
+    # a debug node joining two debug branches, one of which is cut away by the selection
+    cases.append(dict(kind="graph", n=5, edges=[[0, 2], [1, 3], [2, 4], [3, 4]], prios=[0, 0, 0, 0, 0], debug=[2, 3, 4], setup=[], tags={}, consts={}, queries=[
+        dict(kind="exec", run_debug=True, target=None, exclude=[["id", "n1"]], root=None, in_hypothesis=True),
+        dict(kind="exec", run_debug=True, target=[["id", "n0"]], exclude=None, root=None, in_hypothesis=True),
+        dict(kind="exec", run_debug=True, target=[["id", "n0"], ["id", "n1"]], exclude=None, root=None, in_hypothesis=True),
+        dict(kind="exec", run_debug=False, target=None, exclude=[["id", "n1"]], root=None, in_hypothesis=True)]))
     for _ in range(ncases):
         cases.append(kgraph.gen_queries(rng, kgraph.gen_graph_case(rng, max_n=7 if tier == "quick" else 9), k=6))
     if only is not None:
@@ -74,14 +80,73 @@ def run(pid, tier, seed, res, seeds_extra=None, only=None):
         res.evaluations += 1 + len(case["queries"])
         if nontree or case["debug"] or case["setup"]:
             res.distinct.add(hashlib.sha1(json.dumps(case, sort_keys=True).encode()).hexdigest()[:12])
+    # ---- build rules (C13: a non-debug node depending on a debug node; C11: a setup node depending on a
+    #      non-setup node or a DAG parameter): accepted / rejected at build time as Build.v says
+    nviol = 60 if tier == "quick" else 800
+    for _ in range(nviol):
+        basec = cases[rng.randrange(len(cases))]
+        vc = kgraph.gen_violation(rng, basec)
+        if vc is None:
+            continue
+        v = vc["viol"]
+        try:
+            kgraph.build_dag(vc)
+            built = ("ok", None)
+        except BaseException as e:  # noqa: BLE001
+            built = ("raise", "%s: %s" % (type(e).__name__, str(e)[:120]))
+        n_ = vc["n"]
+        deps = {j: [a for a, b in vc["edges"] if b == j] for j in range(n_)}
+        PARAM = n_  # id of the DAG parameter in the model
+        CONST0 = n_ + 1
+        for j in range(n_):
+            if vc["consts"].get(str(j)):
+                deps[j] = deps[j] + [CONST0 + j]
+        deps[v["dst"]] = deps[v["dst"]] + [PARAM if v["how"] == "param" else v["src"]]
+        term = "kbuild %s %s %s %s %s %s" % (
+            coqrun.fun_table(deps, "[]", coqrun.nat_list),
+            coqrun.fun_table({j: True for j in vc["debug"]}, "false", lambda b: "true"),
+            coqrun.fun_table({j: True for j in vc["setup"]}, "false", lambda b: "true"),
+            "(fun n : nat => Nat.leb %d n)" % CONST0, "(fun n : nat => Nat.eqb n %d)" % PARAM, coqrun.nat_list(list(range(n_))))
+        where.append(("viol", dict(case=vc, built=built)))
+        items.append(("nat", term))
+        res.evaluations += 1
     prefix = "kgraph_%s" % pid
     coqrun.clean_build(prefix)
-    paths = coqrun.write_shards(prefix, "Graph Priority Select GraphCheck", items, per_file=120, ty="list Z")
-    results, errors = coqrun.run_shards(paths)
+    nat_items = [(i, it[1]) for i, it in enumerate(items) if isinstance(it, tuple)]
+    z_items = [(i, it) for i, it in enumerate(items) if not isinstance(it, tuple)]
+    paths = coqrun.write_shards(prefix, "Graph Priority Select GraphCheck", [t for _, t in z_items], per_file=120, ty="list Z")
+    results_z, errors = coqrun.run_shards(paths)
+    paths2 = coqrun.write_shards(prefix + "b", "Graph Build", [t for _, t in nat_items], per_file=200)
+    results_n, errors2 = coqrun.run_shards(paths2)
+    errors = errors + errors2
+    results = {}
+    for k2, (i, _) in enumerate(z_items):
+        if k2 in results_z:
+            results[i] = results_z[k2]
+    for k2, (i, _) in enumerate(nat_items):
+        if k2 in results_n:
+            results[i] = results_n[k2]
     coqrun.clean_build(prefix)
+    coqrun.clean_build(prefix + "b")
     if errors:
         res.hit(pid, "divergence", "coqc failed on K-graph case files: " + errors[0][2][-300:], dict(kind="coqc-error"))
-    for k, (ci, label, ids) in enumerate(where):
+    for k, w_ in enumerate(where):
+        if w_[0] == "viol":
+            mv = results.get(k)
+            vc, built = w_[1]["case"], w_[1]["built"]
+            v = vc["viol"]
+            base = dict(engine="kgraph", case=vc)
+            if mv is None:
+                res.hit(pid, "divergence", "no model result for a build-rule case", dict(base, kind="no-result"))
+                continue
+            owner = "C11" if v["dst"] in vc["setup"] else "C13"
+            if mv[0] == 1 and built[0] != "ok":
+                res.hit(owner, "divergence", "K-build: a DAG the build rules accept was rejected: %s (extra dependency %s)" % (built[1], v), dict(base, kind="divergence"))
+            elif mv[0] == 0 and built[0] == "ok":
+                what = "a setup node depending on a non-setup node or a DAG parameter" if owner == "C11" else "a non-debug node depending on a debug node"
+                res.hit(owner, "monitor", "a DAG with %s (through %s) was accepted at build time: extra dependency %s, debug %s, setup %s" % (what, v["via"], v, vc["debug"], vc["setup"]), dict(base, kind="monitor"))
+            continue
+        ci, label, ids = w_
         case = cases[ci]
         im = impl[ci]
         mv = results.get(k)
@@ -106,8 +171,31 @@ def run(pid, tier, seed, res, seeds_extra=None, only=None):
         dist["q_" + q["kind"]] += 1
         dist["q_status_" + r["status"]] += 1
         if r["status"] == "other":
-            # outside the documented contract (e.g. excluding a node that root_nodes already cut away): recorded only
-            dist["q_outside_contract"] += 1
+            # an exception other than ValueError.  Outside the documented contract (an excluded node that
+            # root_nodes already cut away: the model says what is selected, networkx raises) it is only recorded
+            in_hyp = True
+            if q["exclude"] is not None and q["root"] is not None:
+                def res_alias(a):
+                    if a[0] == "ref":
+                        return ["n%d" % a[1]]
+                    hits = [nid for nid, ts in t["tags"].items() if a[1] in ts]
+                    return hits or [a[1]]
+                R = [x for a in q["root"] for x in res_alias(a)]
+                X = [x for a in q["exclude"] for x in res_alias(a)]
+                edges_ = [(p, nn) for nn, ps in t["deps"].items() for p in ps]
+                g1 = set(R)
+                ch = True
+                while ch:
+                    ch = False
+                    for p, nn in edges_:
+                        if p in g1 and nn not in g1:
+                            g1.add(nn)
+                            ch = True
+                in_hyp = all(x in g1 for x in X)
+            if in_hyp:
+                res.hit("C12" if q["kind"] == "exec" else "C11", "monitor", "%s raised %s, which is neither a selection nor the documented ValueError" % (qdesc(q), r.get("msg")), dict(base, kind="monitor", query=q))
+            else:
+                dist["q_outside_contract"] += 1
             continue
         m_ok = mv[0] == 1
         m_nodes = sorted(ids.names[x] for x in mv[1:]) if m_ok else None
